@@ -25,7 +25,8 @@ Accepts(u, p) == wildcard \/ <<u, p>> \in creds \/ (Anon /\ u = "" /\ p = "")
 Attempt(u, p) ==
   /\ last' = [a |-> "attempt", ok |-> Accepts(u, p)]
   /\ events' = Append(events, [user |-> u, password |-> p])     \* every attempt is recorded as presented
-  /\ loggedIn' = (loggedIn \/ (Accepts(u, p) /\ ~(Anon /\ u = "")))
+  /\ loggedIn' = IF Anon /\ u = "" /\ p = "" THEN FALSE      \* an anonymous bind returns to the anonymous state
+                 ELSE (loggedIn \/ (Accepts(u, p) /\ ~(Anon /\ u = "")))
   /\ UNCHANGED <<creds, wildcard>>
 
 \* an operation that requires authentication
